@@ -96,12 +96,13 @@ def run_main(argv, call_handler=True, reload=True):
 
 def extract_request(stdout):
     """The OFX request printed by a dry run (stdout may also carry log lines)."""
-    i = stdout.find("OFXHEADER:100")
-    j = stdout.find("<?xml")
+    # the request is what is printed LAST; with -v / -vv the log lines before it may quote requests, too
+    i = stdout.rfind("OFXHEADER:100")
+    j = stdout.rfind("<?xml")
     starts = [x for x in (i, j) if x >= 0]
     if not starts:
         return None
-    s = stdout[min(starts):]
+    s = stdout[max(starts):]
     end = s.rfind("</OFX>")
     if end < 0:
         return None
